@@ -330,4 +330,96 @@ theorem parseFlow_skipWs (t : List Char) :
   unfold parseFlow
   rw [hb, hr, ha]
 
+/-! ## a text without `:` is no mapping (a configuration of Unicode white space only) -/
+
+theorem plainGo_mem : ∀ (cs acc : List Char) (a r : List Char), plainGo cs acc = some (a, r) → ∀ x ∈ r, x ∈ cs := by
+  intro cs
+  induction cs with
+  | nil =>
+    intro acc a r h
+    simp only [plainGo, Option.some.injEq, Prod.mk.injEq] at h
+    rw [← h.2]; intro x hx; exact hx
+  | cons c rest ih =>
+    intro acc a r h
+    unfold plainGo at h
+    repeat' split at h
+    all_goals first
+      | (simp only [Option.some.injEq, Prod.mk.injEq] at h; rw [← h.2]; intro x hx; exact hx)
+      | (intro x hx; exact List.mem_cons_of_mem _ (ih _ a r h x hx))
+      | (exfalso; simp at h; done)
+
+theorem mem_skipWs : ∀ (t : List Char) (x : Char), x ∈ skipWs t → x ∈ t
+  | [], _, h => h
+  | c :: r, x, h => by
+    unfold skipWs at h
+    split at h
+    · exact List.mem_cons_of_mem _ (mem_skipWs r x h)
+    · exact h
+
+/-- a key that does not start with a double quote is followed by a `:` of the text -/
+theorem parseKey_colon (d : Char) (rest : List Char) (hd : d ≠ '"') (k : Scalar) (r : List Char)
+    (h : parseKey (d :: rest) = some (k, r)) : ':' ∈ d :: rest := by
+  unfold parseKey at h
+  cases hs : scanScalar (d :: rest) with
+  | none => simp [hs] at h
+  | some x =>
+    obtain ⟨k', r1⟩ := x
+    simp only [hs] at h
+    have hr1 : ∀ x ∈ r1, x ∈ d :: rest := by
+      unfold scanScalar at hs
+      split at hs
+      · cases hs
+      · rename_i heq; cases heq; exact absurd rfl hd
+      · rename_i c rest' _ heq
+        cases heq
+        split at hs
+        · cases hp : plainGo (d :: rest) [] with
+          | none => simp [hp] at hs
+          | some y =>
+            obtain ⟨a, r'⟩ := y
+            simp only [hp, Option.map_some, Option.some.injEq, Prod.mk.injEq] at hs
+            rw [← hs.2]
+            exact plainGo_mem (d :: rest) [] a r' hp
+        · cases hs
+    split at h
+    · rename_i r' heq
+      apply hr1
+      apply mem_skipWs
+      rw [heq]
+      simp
+    · cases h
+
+theorem skipWs_head_nonblank : ∀ (t : List Char) (d : Char) (r : List Char), skipWs t = d :: r → isBlank d = false
+  | [], _, _, h => by cases h
+  | c :: t, d, r, h => by
+    unfold skipWs at h
+    split at h
+    · exact skipWs_head_nonblank t d r h
+    · rename_i hc
+      cases h
+      simpa using hc
+
+/-- a text between the braces in which no `:` occurs and that does not start with a blank, `}` or `"` is no
+mapping -/
+theorem parseAst_no_colon (d : Char) (rest : List Char) (hb : isBlank d = false) (h1 : d ≠ '}') (h2 : d ≠ '"')
+    (hc : ':' ∉ d :: rest) : parseAst ('{' :: d :: rest) = none := by
+  have hk : parseKey (d :: rest) = none := by
+    cases hp : parseKey (d :: rest) with
+    | none => rfl
+    | some x => exact absurd (parseKey_colon d rest h2 x.1 x.2 hp) hc
+  have hd : dropSpaces ('{' :: d :: rest) = '{' :: d :: rest := by simp [dropSpaces]
+  have hs : skipWs (d :: rest) = d :: rest := by simp [skipWs, hb]
+  have hm : parseMapV ((d :: rest).length + 1) (d :: rest) = none := by
+    rw [parseMapV_succ]
+    unfold stepV
+    rw [hs]
+    split
+    · rename_i heq
+      cases heq
+      exact absurd rfl h1
+    · simp only [hk]
+  unfold parseAst
+  rw [hd]
+  simp only [hm]
+
 end Scrut.Yaml
